@@ -144,18 +144,24 @@ func checkC05(c *Check, p *Program) {
 				return
 			}
 			for _, pr := range [][2]ssa.Value{{bo.X, bo.Y}, {bo.Y, bo.X}} {
-				if !isLoadOf(pr[0], reqSeq) {
+				// req.SeqNumber == expected-1   or   req.SeqNumber+1 == expected
+				var ar *ssa.BinOp
+				if isLoadOf(pr[0], reqSeq) {
+					if sub, ok := pr[1].(*ssa.BinOp); ok && sub.Op == token.SUB {
+						ar = sub
+					}
+				}
+				if add, ok := pr[0].(*ssa.BinOp); ok && add.Op == token.ADD && isLoadOf(add.X, reqSeq) {
+					ar = add
+				}
+				if ar == nil {
 					continue
 				}
-				sub, isSub := pr[1].(*ssa.BinOp)
-				if !isSub || sub.Op != token.SUB {
-					continue
-				}
-				if k, isK := constInt(sub.Y); !isK || k != 1 {
+				if k, isK := constInt(ar.Y); !isK || k != 1 {
 					continue
 				}
 				nDup++
-				c.Decide(isU8(sub.Type()) && isU8(sub.X.Type()), "C05.X2", FuncName(fn)+" duplicate test subtracts in one octet", p.InstrPos(bo), "expected-1 computed in uint8 (0-1 = 255)", "the repetition test computes expected-1 in "+sub.Type().String()+": after the wrap from 255 to 0 a repeated request 255 is not recognised")
+				c.Decide(isU8(ar.Type()) && isU8(ar.X.Type()), "C05.X2", FuncName(fn)+" duplicate test computes in one octet", p.InstrPos(bo), "expected-1 (or received+1) computed in uint8 (0-1 = 255)", "the repetition test computes the neighbouring number in "+ar.Type().String()+": after the wrap from 255 to 0 a repeated request 255 is not recognised")
 			}
 		})
 	}
@@ -185,4 +191,18 @@ func checkC05(c *Check, p *Program) {
 		c.Decide(expires && op.Select.Blocking, "C05.X3", FuncName(op.Fn)+" relayed acknowledgement expires", pos, "select {ack <- res, <-time.After(config.ResendInterval), ...}", "the relayed acknowledgement does not expire after one resend interval: a stale acknowledgement can satisfy a later request that reuses the number")
 	}
 	c.Floor("C05.X3", "relays onto Tunnel.ack", nRelay, 1)
+	// the hand-over channel itself holds nothing: a buffered channel would keep an acknowledgement that nobody
+	// waited for beyond its expiry
+	nMk := 0
+	for _, st := range ix.stores[a.ack] {
+		mc, ok := stripConv(st.Val).(*ssa.MakeChan)
+		if !ok {
+			c.Fail("C05.X3", FuncName(st.Parent())+" Tunnel.ack is a fresh unbuffered channel", p.InstrPos(st), "Tunnel.ack is assigned "+describe(st.Val))
+			continue
+		}
+		nMk++
+		k, isK := constInt(mc.Size)
+		c.Decide(isK && k == 0, "C05.X3", FuncName(st.Parent())+" Tunnel.ack is unbuffered", p.InstrPos(mc), "make(chan *TunnelRes): an acknowledgement exists only while a sender waits or its relay has not expired", "Tunnel.ack is buffered: an acknowledgement that arrives while no Send waits is kept without expiry and satisfies a later request that reuses the number (after a reconnect, or 256 requests later)")
+	}
+	c.Floor("C05.X3", "constructions of Tunnel.ack", nMk, 1)
 }
